@@ -257,7 +257,7 @@ func (g *hgen) deterministic() {
 	}
 	for _, l := range []int{1, 2, 62, 63} {
 		lab := cat([]byte{byte(l)}, bytes.Repeat([]byte{'q'}, l))
-		g.name("truncated", lab, 0)          // no terminator
+		g.name("truncated", lab, 0)              // no terminator
 		g.name("truncated", lab[:len(lab)-1], 0) // label cut
 	}
 	g.name("offset-at-end", abc, 5)
